@@ -54,6 +54,99 @@ def ALIGN(x, a):
     return (x + a - 1) // a * a
 
 
+def spec_loc(sp):
+    """where a spec string of the generator fetches its word (the caller's view: SysV x86_64)"""
+    m = re.search(r"%stack\+(\d+)", sp)
+    if m:
+        return ("stack", int(m.group(1)))
+    m = re.search(r"%([a-z0-9]+)$", sp)
+    if m and m.group(1) in REGNAMES:
+        return ("reg", REGNAMES.index(m.group(1)))
+    if sp.startswith("retval"):
+        return ("ret", 0)
+    m = re.match(r"arg(\d+)", sp)
+    if m:
+        n = int(m.group(1))
+        return ("reg", n - 1) if n <= 6 else ("stack", n - 6)
+    return None
+
+
+def word_token(c, loc):
+    if loc[0] == "reg":
+        return c["regs"][loc[1]]
+    if loc[0] == "ret":
+        return c["ret"][loc[1]]
+    return c["stack"][loc[1] - 1] if loc[1] - 1 < len(c["stack"]) else (SENTINEL_RET if loc[1] == 24 else 0)
+
+
+def finish_slots(c):
+    """what the caller put into each word a spec names: c["slots"]["reg:0"] = ["str", i] | ["int", w] | ["null"] |
+    ["bad"] | ["sym", k] | ["obj", inner] | ["struct"]"""
+    slots = {}
+    for sp, a in list(zip(c["specs"], c["actual"])) + list(zip(c["rspecs"], c["ractual"])):
+        loc = spec_loc(sp)
+        if loc is None or "/t" in sp:
+            continue
+        if re.search(r"/S", sp) and word_token(c, loc) != "@BAD":
+            a = ["obj", a]
+        slots["%s:%d" % loc] = a[:2] if a[0] == "int" else a
+    c["slots"] = slots
+    c.setdefault("xmm0", 0)
+    return c
+
+
+def groups_of(c):
+    """the -A / -R options of a case in the order they are given: [{"opt": "A"|"R", "regex": bool, "specs": [...]}]"""
+    if "groups" in c:
+        return c["groups"]
+    g = []
+    if c["specs"]:
+        g.append({"opt": "A", "regex": False, "specs": c["specs"]})
+    if c["rspecs"]:
+        g.append({"opt": "R", "regex": False, "specs": c["rspecs"]})
+    return g
+
+
+def loc_of_mspec(m):
+    """where the merged spec m (fields of struct uftrace_arg_spec) must fetch from, by the ABI"""
+    f = FMTS[m["fmt"]]
+    if m["idx"] == 0:
+        return ("xmm", 0) if f == "FFloat" else ("ret", 0)
+    t = TYPES[m["type"]]
+    if t == "TIndex":
+        n = m["idx"]
+        return ("reg", n - 1) if 1 <= n <= 6 else ("stack", n - 6) if 7 <= n <= 100 else None
+    if t == "TReg":
+        return ("reg", m["u"] - 1) if 1 <= m["u"] <= 6 else None
+    if t == "TStack":
+        return ("stack", m["u"]) if 1 <= m["u"] <= 100 else None
+    return None
+
+
+def derive_actual(c, m):
+    """the value a merged spec must show: what the caller put where the ABI says the spec looks"""
+    f = FMTS[m["fmt"]]
+    if f == "FStruct":
+        return ["struct"]
+    if f == "FFloat":
+        return ["flt", c.get("xmm0", 0)]
+    loc = loc_of_mspec(m)
+    if loc is None:
+        raise RuntimeError("generated spec names no modelled location: %r" % (m,))
+    content = c["slots"].get("%s:%d" % loc)
+    if f in ("FStr", "FStdStr"):
+        if content is None:
+            raise RuntimeError("string spec on a word the generator did not fill with a pointer: %r" % (m,))
+        if content[0] == "obj":
+            if f != "FStdStr":
+                raise RuntimeError("plain string spec on a std::string object")
+            return content[1]
+        return content
+    if f == "FPtr" and content is not None and content[0] == "sym":
+        return content
+    return ["int", word_token(c, loc), list(loc)]
+
+
 class Gen:
     """random calls aimed at the boundaries of DESIGN.md appendix B"""
 
@@ -107,7 +200,7 @@ class Gen:
     def call(self, profile=None):
         r = self.rng
         profile = profile or r.choice(["mix", "mix", "mix", "ints", "strings", "strlen", "total", "total", "struct",
-                                       "addr", "ptr", "ret", "stdstr", "many"])
+                                       "addr", "ptr", "ret", "stdstr", "many", "multi", "multi", "multi"])
         c = self.blank(profile)
         if profile == "ints":
             for _ in range(r.randrange(1, 9)):
@@ -148,14 +241,104 @@ class Gen:
             for _ in range(r.randrange(1, 9)):
                 r.choice([self.add_int, self.add_int, self.add_str, self.add_str, self.add_char, self.add_ptr,
                           self.add_struct])()
-        if profile == "ret" or r.random() < 0.5:
+        if profile == "ret" or profile == "multi" or r.random() < 0.5:
             self.add_ret()
         if not c["specs"] and not c["rspecs"]:
             self.add_int()
         # keep the display inside replay's 1 KiB text buffers (their overflow is a separate witness)
         while self.display_len(c) > 900 and c["specs"]:
             self.drop_last()
+        c["xmm0"] = r.choice([0, 0x3ff8000000000000, 0x400921fb54442d18, r.getrandbits(64)])
+        finish_slots(c)
+        if profile == "multi" or r.random() < 0.15:
+            self.multi()
         return c
+
+    def multi(self):
+        """several specs on one function: more than one -A / -R option (exact name and regex) matching it, specs that
+        name the same argument again (merged by add_arg_spec: the later one wins), the same word named through
+        another class (argN and %reg / %stack: both stay), several return value specs of different class (all are
+        recorded, the first is shown)"""
+        r = self.rng
+        c = self._c
+        ga = [{"opt": "A", "regex": False, "specs": list(c["specs"])}] if c["specs"] else []
+        gr = [{"opt": "R", "regex": False, "specs": list(c["rspecs"])}] if c["rspecs"] else []
+        extra = []
+        def int_fmt(tok, allow_d64=True):
+            f = r.choice("diuxocp")
+            bits = r.choice(["", "", "8", "16", "32", "64"]) if f != "p" else ""
+            v = tok if isinstance(tok, int) else 1 << 40
+            if f == "d" and bits in ("", "64") and 0xffff0000 < v <= 0xffffffff:
+                f = "x"                       # listed defect auto-neg32: witness only
+            return f + bits
+        # the same argument named again / through another class
+        for sp in list(c["specs"]):
+            if r.random() > 0.6 or "/t" in sp:
+                continue
+            loc = spec_loc(sp)
+            content = c["slots"].get("%s:%d" % loc) if loc else None
+            if content is None:
+                continue
+            tok = word_token(c, loc)
+            fam = content[0]
+            how = r.choice(["again", "again", "class"])
+            name = sp.split("/")[0].split("%")[0]
+            sfx = ("%" + sp.split("%", 1)[1]) if "%" in sp else ""
+            if how == "class":
+                if loc[0] == "reg" and ("R", loc[1]) not in self._used and not sfx:
+                    self._used.add(("R", loc[1]))
+                    name, sfx = "arg%d" % r.randrange(1, 19), "%" + REGNAMES[loc[1]]
+                elif loc[0] == "stack" and ("S", loc[1]) not in self._used and not sfx:
+                    self._used.add(("S", loc[1]))
+                    name, sfx = "arg%d" % r.randrange(1, 19), "%%stack+%d" % loc[1]
+                else:
+                    how = "again"
+            if fam in ("str", "null", "bad"):
+                f = r.choice(["s", "s", "p", "x"])
+            elif fam == "obj":
+                f = r.choice(["S", "p", "x"])
+            else:
+                f = int_fmt(tok)
+            extra.append({"opt": "A", "regex": r.random() < 0.5, "specs": ["%s/%s%s" % (name, f, sfx)]})
+            c["tags"].append("multi=same-arg-" + how)
+        # several return value specs
+        rc = c["slots"].get("ret:0")
+        rtok = c["ret"][0]
+        n = r.randrange(1, 4)
+        for _ in range(n):
+            cls = r.choice(["index", "float", "float", "reg", "stack"])
+            if rc is not None and rc[0] in ("str", "null", "bad"):
+                f = r.choice(["s", "p", "x"])
+            elif rc is not None and rc[0] == "struct":
+                f = "x"
+            else:
+                f = int_fmt(rtok)
+            if cls == "float":
+                spec = "retval/f" + r.choice(["", "32", "64"])
+            elif cls == "reg":
+                i = r.randrange(6)
+                if ("R", i) in self._used:
+                    continue
+                self._used.add(("R", i))
+                spec = "retval/%s%%%s" % (f, REGNAMES[i])
+            elif cls == "stack":
+                k = r.randrange(1, 24)
+                if ("S", k) in self._used:
+                    continue
+                self._used.add(("S", k))
+                spec = "retval/%s%%stack+%d" % (f, k)
+            else:
+                spec = "retval/" + f
+            extra.append({"opt": "R", "regex": r.random() < 0.5, "specs": [spec]})
+            c["tags"].append("multi=retval-" + cls)
+        r.shuffle(extra)
+        # extra options before or behind the function's own ones
+        pre = [g for g in extra if r.random() < 0.4]
+        post = [g for g in extra if g not in pre]
+        c["groups"] = pre + ga + gr + post
+        c["specs"] = [s_ for g in c["groups"] if g["opt"] == "A" for s_ in g["specs"]]
+        c["rspecs"] = [s_ for g in c["groups"] if g["opt"] == "R" for s_ in g["specs"]]
+        c["tags"].append("multi")
 
     # ---- slots
     def slot(self, addressing=None):
@@ -560,10 +743,11 @@ class Impl:
                 lines.append("SADDR %d" % (sbase + i))
                 expect.append("SADDR")
             sbase += nobj
-            if c["specs"]:
-                argenv.append("f%d@%s" % (k, ",".join(c["specs"])))
-            if c["rspecs"]:
-                retenv.append("f%d@%s" % (k, ",".join(c["rspecs"])))
+            for g in groups_of(c):
+                (argenv if g["opt"] == "A" else retenv).append(
+                    ("^(f%d)$@%s" if g.get("regex") else "f%d@%s") % (k, ",".join(g["specs"])))
+            lines.append("SPECS %d" % k)
+            expect.append("SPECS")
             t0 = T_BASE + 1000 * (ci + 1)
             c["times"] = [t0, t0 + 10, t0 + 20, t0 + 30]
             lines += ["FRAMESET 1 0 %d" % SENTINEL_RET,     # the word behind the 23 stack words of frame 0
@@ -572,13 +756,13 @@ class Impl:
                       "E 0 %d" % (t0 + 10), "X %d" % (t0 + 20),
                       "ARGDUMP -1 %d" % WINDOW,
                       "ARGFILL -1 %d %d" % (FILL, WINDOW),
-                      "XR %d %s" % (t0 + 30, " ".join(tok(w) for w in c["ret"])),
+                      "XRF %d %s %d" % (t0 + 30, " ".join(tok(w) for w in c["ret"][:2]), c.get("xmm0", 0)),
                       "ARGDUMP 0 %d" % WINDOW]
             expect += ["FRAMESET", "ARGFILL", "E", "E", "X", "ARGDUMP", "ARGFILL", "X", "ARGDUMP"]
         tend = T_BASE + 1000 * (len(cases) + 2)
         lines += ["E 0 %d" % tend, "X %d" % (tend + 10), "DUMPRAW"]
         expect += ["E", "X", "DUMPRAW"]
-        env = {}
+        env = {"UFTRACE_PATTERN": "regex"}      # a plain name stays an exact match, "^(f3)$" is a regex match
         if argenv:
             env["UFTRACE_ARGUMENT"] = ";".join(argenv)
         if retenv:
@@ -598,6 +782,20 @@ class Impl:
                 next(it)
                 saddr[i] = int(next(it).split()[1])
             c["env"] = {"f0": f0, "bad": bad, "saddr": saddr}
+            sp = next(it)[6:].split(" | ")
+            c["tflags"] = int(sp[0].split()[0])
+            c["mspecs"] = []
+            for item in sp[1:]:
+                k = item.split()
+                cnt = int(k[5])
+                c["mspecs"].append({"idx": int(k[0]), "fmt": int(k[1]), "size": int(k[2]), "type": int(k[3]),
+                                    "u": int(k[4]), "regs": [int(x) for x in k[6:6 + cnt]],
+                                    "name": "" if k[10] == "-" else k[10]})
+            # what each merged spec has to show (the caller's view)
+            c["pspecs"] = [m for m in c["mspecs"] if m["idx"] != 0]
+            c["prspecs"] = [m for m in c["mspecs"] if m["idx"] == 0]
+            c["actual"] = [derive_actual(c, m) for m in c["pspecs"]]
+            c["ractual"] = [derive_actual(c, m) for m in c["prspecs"]]
             next(it), next(it)
             e = next(it).split()
             next(it), next(it)
@@ -632,8 +830,11 @@ class Impl:
         shutil.rmtree(d, ignore_errors=True)
         desc = {"syms": syms, "base": base, "tasks": [{"tid": 100, "pid": 100, "raw": raw}], "args": True,
                 "cpuinfo": "Intel(R) Xeon(R) Processor @ 2.10GHz"}
-        aspec = ";".join("fn%02d@%s" % (c["k"], ",".join(c["specs"])) for c in cases if c["specs"])
-        rspec = ";".join("fn%02d@%s" % (c["k"], ",".join(c["rspecs"])) for c in cases if c["rspecs"])
+        aspec = ";".join(("^(fn%02d)$@%s" if g.get("regex") else "fn%02d@%s") % (c["k"], ",".join(g["specs"]))
+                         for c in cases for g in groups_of(c) if g["opt"] == "A")
+        rspec = ";".join(("^(fn%02d)$@%s" if g.get("regex") else "fn%02d@%s") % (c["k"], ",".join(g["specs"]))
+                         for c in cases for g in groups_of(c) if g["opt"] == "R")
+        desc["pattern_type"] = "regex"
         datadir.write(desc, d, argspec={"argspec": aspec, "retspec": rspec})
         exe = os.path.join(self.objdir, "uftrace")
         p = subprocess.run(["timeout", "60", exe, "replay", "--no-pager", "-f", "none", "--no-comment", "-d", d],
@@ -684,8 +885,11 @@ class Impl:
             seg_a, seg_r = out[a:b], out[b:e if e >= 0 else len(out)]
             c["obs"]["dump_args"] = [(int(m.group(1)), m.group(2).decode(), int(m.group(3)), int(m.group(4), 16))
                                      for m in re.finditer(rb"\n  args\[(\d+)\] ([a-zA-Z])(\d+): 0x([0-9a-f]+)(?=\n)", seg_a)]
-            c["obs"]["dump_ret"] = [(0, m.group(1).decode(), int(m.group(2)), int(m.group(3), 16))
-                                    for m in re.finditer(rb"\n  retval ([a-zA-Z])(\d+): 0x([0-9a-f]+)(?=\n)", seg_r)]
+            c["obs"]["dump_ret"] = []
+            for i, m in enumerate(re.finditer(rb"\n  retval ([^\n]*)", seg_r)):
+                m2 = re.match(rb"([a-zA-Z])(\d+): 0x([0-9a-f]+)$", m.group(1))
+                if m2:
+                    c["obs"]["dump_ret"].append((i, m2.group(1).decode(), int(m2.group(2)), int(m2.group(3), 16)))
             cur = b
 
 
@@ -770,8 +974,9 @@ def coq_case(c):
     objs = cobjs(c)
     stk = [resolve(c, w) for w in c["stack"]]
     stk = stk + [0] * (23 - len(stk)) + [SENTINEL_RET]
-    inp = ("{| regs := %s; xmm := []; stk := %s; rets := %s; strs := [%s]; wrds := [%s] |}"
-           % (nlist(resolve(c, w) for w in c["regs"]), nlist(stk), nlist(resolve(c, w) for w in c["ret"]),
+    inp = ("{| regs := %s; xmm := [%s]; stk := %s; rets := %s; strs := [%s]; wrds := [%s] |}"
+           % (nlist(resolve(c, w) for w in c["regs"]), num(c.get("xmm0", 0)), nlist(stk),
+              nlist(resolve(c, w) for w in c["ret"][:2]),
               "; ".join("(%s, %s)" % (num(c["env"]["saddr"][i]), blist(s)) for i, s in sorted(strs.items())),
               "; ".join("(%s, %s)" % (num(c["env"]["saddr"][i] + 8 * j), num(resolve(c, w)))
                         for i, ws in sorted(objs.items()) for j, w in enumerate(ws))))
@@ -781,7 +986,7 @@ def coq_case(c):
             "c_t3 := %s; c_child := %s; c_has_args := %s; c_has_ret := %s |}"
             % ("; ".join(coq_spec(s) for s in specs), FILL, num(f0 + 256 * c["k"] + 4), num(t[0]), num(t[1]), num(t[2]),
                num(t[3]), num(f0 + 4),
-               coq.coq_bool(bool(c["specs"])), coq.coq_bool(bool(c["rspecs"]))))
+               coq.coq_bool(bool(c["tflags"] & 64)), coq.coq_bool(bool(c["tflags"] & 256))))
     o = c["obs"]
     imgs = []
     for img, flag, which in ((o["img_entry"], o["flags_entry"] & FL_ARGUMENT, "first"),
@@ -853,24 +1058,23 @@ def model_detail(ctx, c, name="detail"):
 
 # ================================================================== judging outside Coq: dump values
 def judge_dump(c):
-    """`uftrace dump` prints the low spec->size bytes of every scalar: they must be the bytes passed.
-    returns None or a description of the first wrong value"""
-    for specs, pspecs, actual, got, what in ((c["specs"], c["pspecs"], c["actual"], c["obs"].get("dump_args"), "args"),
-                                             (c["rspecs"], c["prspecs"], c["ractual"], c["obs"].get("dump_ret"), "retval")):
-        if got is None or not specs:
+    """`uftrace dump` prints the low spec->size bytes of every scalar (all return value specs too): they must be
+    the bytes passed.  returns None or a description of the first wrong value"""
+    for pspecs, actual, got, what in ((c["pspecs"], c["actual"], c["obs"].get("dump_args"), "args"),
+                                      (c["prspecs"], c["ractual"], c["obs"].get("dump_ret"), "retval")):
+        if got is None or not pspecs:
             continue
         if not fits(c, pspecs, actual):
             continue
         byidx = {g[0]: g for g in got}
         for i, (sp, a) in enumerate(zip(pspecs, actual)):
-            if what == "retval" and i > 0:
-                break
             if a[0] not in ("int", "flt") or FMTS[sp["fmt"]] in ("FStr", "FStdStr", "FStruct", "FPtr", "FEnum"):
                 continue
             g = byidx.get(i)
             want = (resolve(c, a[1]) if a[0] == "int" else a[1]) & ((1 << (8 * sp["size"])) - 1)
             if g is None or g[3] != want or g[2] != 8 * sp["size"]:
-                return "%s[%d] (%s): dump shows %s, the value passed is %#x" % (what, i, specs[i], g, want)
+                return "%s[%d] (%s, %d bytes): dump shows %s, the value passed is %#x" % (
+                    what, i, FMTS[sp["fmt"]], sp["size"], g, want)
     return None
 
 
@@ -991,8 +1195,10 @@ def e2e_aval(a):
     return "AStruct"
 
 
-def e2e_run(ctx, impl, funcs, tag):
-    """compile, record with --auto-args, replay; returns list of (func, problem or None)"""
+def e2e_run(ctx, impl, funcs, tag, extra_opts=(), judge_ret=True):
+    """compile, record with --auto-args (+ extra -A/-R options), replay; returns list of (func, problem or None).
+    judge_ret=False: the extra options put further return value specs in front, only the arguments and the
+    completeness of the call sequence are judged"""
     d = os.path.join(ctx.scratch, "e2e-" + tag)
     shutil.rmtree(d, ignore_errors=True)
     os.makedirs(d)
@@ -1005,7 +1211,7 @@ def e2e_run(ctx, impl, funcs, tag):
     uft = os.path.join(impl.objdir, "uftrace")
     data = os.path.join(d, "data")
     p = subprocess.run(["timeout", "60", uft, "record", "--no-pager", "--no-event", "--libmcount-path=" + impl.objdir,
-                        "-a", "-d", data, exe], capture_output=True, timeout=90, cwd=d)
+                        "-a"] + list(extra_opts) + ["-d", data, exe], capture_output=True, timeout=90, cwd=d)
     if p.returncode != 0:
         return [(None, "uftrace record -a failed rc=%d: %s" % (p.returncode, p.stderr[-400:].decode("latin-1")))]
     specs = {}
@@ -1019,9 +1225,19 @@ def e2e_run(ctx, impl, funcs, tag):
     p = subprocess.run(["timeout", "60", uft, "replay", "--no-pager", "-f", "none", "--no-comment", "-d", data],
                        capture_output=True, timeout=90)
     shown = {}
+    order = []
     for m in re.finditer(rb"(?m)^  (g\d+)(\(.*?\))( = .*)?;$", p.stdout):
         shown[m.group(1).decode()] = (m.group(2), (m.group(3) + b";") if m.group(3) else b"")
+        order.append(m.group(1).decode())
     items, out = [], []
+    # every call of main, in order, and main's own exit: nothing behind a payload may be lost
+    want = ["g0"] + [f["name"] for f in funcs] if len(funcs) > 1 else None
+    if p.returncode != 0 or b"invalid rstack" in p.stderr or not re.search(rb"(?m)^\}", p.stdout) \
+            or (want is not None and order != want):
+        lost = next((f for f in funcs if f["name"] not in shown), funcs[-1])
+        out.append((lost, "replay lost or garbled records behind a payload: calls shown %s, stderr %r"
+                    % (order, p.stderr[-200:].decode("latin-1"))))
+        funcs = [f for f in funcs if f is not lost]
     for f in funcs:
         sp = specs.get(f["name"])
         if sp is None or f["name"] not in shown:
@@ -1032,7 +1248,7 @@ def e2e_run(ctx, impl, funcs, tag):
                         % (len(sp["A"]), ",".join(sp["A"]), len(f["actual"]), len(sp["R"]))))
             continue
         pa = impl.parse_specs(sp["A"])
-        pr = impl.parse_specs(sp["R"]) if f["ractual"] is not None else []
+        pr = impl.parse_specs(sp["R"]) if f["ractual"] is not None and judge_ret else []
         if any(x is None for x in pa + pr):
             out.append((f, "spec of --auto-args rejected by parse_argspec: %s %s" % (sp["A"], sp["R"])))
             continue
@@ -1044,7 +1260,7 @@ def e2e_run(ctx, impl, funcs, tag):
             "([%s], [%s], %s, %s)" % ("; ".join("(%s, %s)" % (coq_spec(s), e2e_aval(a)) for s, a in zip(pa, f["actual"])),
                                       "; ".join("(%s, %s)" % (coq_spec(s), e2e_aval(f["ractual"])) for s in pr),
                                       blist(shown[f["name"]][0]),
-                                      blist(shown[f["name"]][1] if f["ractual"] is not None else b""))
+                                      blist(shown[f["name"]][1] if f["ractual"] is not None and judge_ret else b""))
             for f, pa, pr in items)
         res = coq.run_cases(ctx, "e2e_" + re.sub(r"\W", "_", tag), PRE, defs, [
             ("bad", "bad_indices (fun x => match x with (a, r, ta, tr) => ok_args a ta && ok_ret r tr end) items 0")])
@@ -1095,19 +1311,25 @@ def e2e(ctx, impl):
             r = ctx.rng
             types = [r.choice(E2E_TYPES) for _ in range(r.randrange(1, 8))]
             funcs.append(g.function(len(funcs) + 1, types))
-        nbad = 0
-        for f, problem in e2e_run(ctx, impl, funcs, "p%d" % rnd):
-            if f is None:
-                ctx.broken("end-to-end run failed: " + problem)
-                continue
-            ctx.case(key=("e2e", f["src"], f["call"]), tags=["e2e:auto-args"] + ["e2e:type=" + t for t in f["types"]])
-            if problem:
-                nbad += 1
-                if nbad <= 2:
-                    ctx.violation("C09 violated end to end (--auto-args): %s(%s) called as %s: %s"
-                                  % (f["name"], ", ".join(f["types"]), f["call"].strip(), problem),
-                                  {"mode": "e2e", "program": e2e_program(funcs), "function": f["name"],
-                                   "specs": f.get("specs"), "rspecs": f.get("rspecs"), "shown": f.get("shown")}, True)
+        # (a) --auto-args alone; (b) --auto-args plus explicit catch-all return value specs of both classes, so that
+        # every function is matched by several -R options (an integer-class and a float-class value are recorded)
+        both = ["-R", "^g[0-9]+$@retval/f", "-R", "^g[1-9][0-9]*$@retval/x"]
+        for variant, opts, judge_ret in (("auto-args", [], True), ("auto-args+explicit-retvals", both, False)):
+            nbad = 0
+            for f, problem in e2e_run(ctx, impl, funcs, "p%d%s" % (rnd, "x" if opts else ""), opts, judge_ret):
+                if f is None:
+                    ctx.broken("end-to-end run failed: " + problem)
+                    continue
+                ctx.case(key=("e2e", variant, f["src"], f["call"]),
+                         tags=["e2e:" + variant] + ["e2e:type=" + t for t in f["types"]])
+                if problem:
+                    nbad += 1
+                    if nbad <= 2:
+                        ctx.violation("C09 violated end to end (%s): %s(%s) called as %s: %s"
+                                      % (variant, f["name"], ", ".join(f["types"]), f["call"].strip(), problem),
+                                      {"mode": "e2e", "program": e2e_program(funcs), "function": f["name"],
+                                       "record_options": ["-a"] + opts, "specs": f.get("specs"),
+                                       "rspecs": f.get("rspecs"), "shown": f.get("shown")}, True)
     return found
 
 
@@ -1142,16 +1364,17 @@ def common_meta(ctx):
 
 
 def prepare(impl, cases):
+    """the spec lists themselves come from libmcount (SPECS op: the list after add_arg_spec merged all options);
+    here only the caller's view is completed"""
     for c in cases:
-        ps = impl.parse_specs(c["specs"] + c["rspecs"])
-        if any(p is None for p in ps):
-            raise RuntimeError("generated spec rejected by parse_argspec: %r" % (c["specs"] + c["rspecs"],))
-        c["pspecs"], c["prspecs"] = ps[:len(c["specs"])], ps[len(c["specs"]):]
+        if "slots" not in c:
+            finish_slots(c)
 
 
 def public(c):
     """JSON-able replay form of a case"""
-    keep = ("specs", "rspecs", "regs", "stack", "ret", "strings", "objs", "actual", "ractual", "tags", "skip_judge")
+    keep = ("specs", "rspecs", "groups", "regs", "stack", "ret", "xmm0", "strings", "objs", "slots", "actual", "ractual",
+            "tags", "skip_judge")
     return {k: c[k] for k in keep if k in c}
 
 
